@@ -34,6 +34,8 @@ def real_atom(a):
         return a[1] in ("call", "rcos", "exp", "abs") or a[1].endswith("apo_func")
     if a[0] == "grp":
         return is_real_form(a[1], real_atom)
+    if a[0] == "phi":
+        return all(isinstance(x, Form) and is_real_form(x, real_atom) for x in a[2])      # real on every path
     return False
 
 
@@ -41,14 +43,18 @@ def rule_ode(ctx):
     pkg = ctx.pkg
     fi = pkg.func("devices.FBG.<locals>.ode_system")
     for apo in (False, True):
-        it = Interp(pkg, assumptions={"apo_func": ("truth", apo)})
+        it = Interp(pkg, assumptions={"apo_func": ("truth", True) if apo else None})     # no profile: the function is None (falsy)
         outs = it.run(fi)
         rets = [o for o in outs if o.kind == "return"]
         case = f"ode_system [{'apodised' if apo else 'uniform'}]"
-        if len(rets) != 1 or not isinstance(rets[0].value, TupleV) or len(rets[0].value.items) != 2:
+        rv = rets[0].value if len(rets) == 1 else None
+        ra_ = rv.single_atom() if isinstance(rv, Form) else None
+        if ra_ and ra_[0] == "fn" and ra_[1] in ("concatenate", "hstack", "array", "asarray") and ra_[2] and isinstance(ra_[2][0], TupleV):
+            rv = ra_[2][0]          # the derivative vector [dR/dz, dS/dz] joined into one array
+        if not isinstance(rv, TupleV) or len(rv.items) != 2:
             ctx.unknown("C16.1", fi, fi.node, case, "does not return [dR/dz, dS/dz]")
             continue
-        dR, dS = rets[0].value.items
+        dR, dS = rv.items
         # R, S atoms: the two halves of the state vector
         idxs = sorted({a for f in (dR, dS) for a in f.atoms(deep=False) if a[0] == "idx"}, key=lambda a: repr(a))
         halves = [a for a in idxs if isinstance(a[2], SliceV)]
